@@ -188,3 +188,28 @@ func VH_C02_depth_copystruct() {
 	vReach("returned")
 	vAssert(err != nil, "C02.depth.copystruct.zero-budget-refused")
 }
+
+// H-cas: two goroutines charge the same message concurrently; every interleaving of their atomic
+// operations is explored. The sizes granted never exceed the budget and the budget never wraps.
+func VH_C02_concurrent_canread() {
+	data := vNondetBytes(8)
+	msg := &Message{Arena: SingleSegment(data)}
+	R := vNondetU64()
+	msg.ResetReadLimit(R)
+	s1, s2 := Size(vNondetU32()), Size(vNondetU32())
+	var g1, g2 bool
+	vPar(func() { g1 = msg.canRead(s1) }, func() { g2 = msg.canRead(s2) })
+	vReach("joined")
+	var granted uint64
+	if g1 {
+		granted += uint64(s1)
+	}
+	if g2 {
+		granted += uint64(s2)
+	}
+	vAssert(granted <= R, "C02.cas.granted-within-budget")
+	vAssert(msg.rlimit <= R-granted, "C02.cas.budget-never-exceeds-what-is-left")
+	if g1 && g2 {
+		vAssert(msg.rlimit == R-granted, "C02.cas.both-charged")
+	}
+}
